@@ -177,6 +177,23 @@ def sRunFrom (keepFree : Bool) (s : SStore) : List SOp → SStore × List Res
 
 def sRun (keepFree : Bool) (ops : List SOp) : SStore × List Res := sRunFrom keepFree {} ops
 
+/-! ### the sequential specification: a map key ↦ value, emptied by clear -/
+
+def resOf : Option Val → Res
+  | some v => .found v
+  | none => .notFound
+
+def sSpecStep (σ : Spec) : SOp → Spec × Res
+  | .put k v => (aset σ k v, .ok)
+  | .get k => (σ, resOf (aget σ k))
+  | .delete k => if (aget σ k).isSome then (aerase σ k, .ok) else (σ, .notFound)
+  | .exists_ k => (σ, .bool (aget σ k).isSome)
+  | .clear => ([], .ok)
+
+def sSpecRunFrom (σ : Spec) : List SOp → List Res
+  | [] => []
+  | op :: r => (sSpecStep σ op).2 :: sSpecRunFrom (sSpecStep σ op).1 r
+
 /-- the slot of a live `emb:` key -/
 def sSlot (s : SStore) (k : Key) : Option Nat :=
   match idxGet s.vocab k with
